@@ -214,6 +214,38 @@ theorem C05_idem (s : Sel K) (nd : Nat) (x : FitRows K) (hr : Ranked x.chi2)
     (hna : NonAttained s nd x.chi2) : keep s nd (keep s nd x) = keep s nd x :=
   C05_looser_first s s nd x hr hna (Nat.le_refl _)
 
+/-- `keep` preserves "one entry per fit in every array" (no ranking needed) -/
+theorem keep_wfInfo (s : Sel K) (nd : Nat) (x : FitRows K) (hwf : WFInfo x) : WFInfo (keep s nd x) := by
+  have hall := cutTo_allLen hwf (keep_cutTo s nd x)
+  obtain ⟨a1, a2, a3, a4, a5, a6⟩ := hall
+  exact ⟨by rw [a1, a3], by rw [a2, a3], by rw [a4, a3], by rw [a5, a3], fun fl hfl => by rw [a6 fl hfl, a3]⟩
+
+/-- **C05 (n_fits is the length of every per-fit array, along every history).** After any sequence of
+    selectors applied one after the other, every per-fit array has exactly `n_fits = len(chi2)`
+    entries. -/
+theorem C05_nfits_invariant (ops : List (Sel K)) (nd : Nat) (x : FitRows K) (hwf : WFInfo x) :
+    WFInfo (ops.foldl (fun acc s => keep s nd acc) x) ∧
+    AllLen (ops.foldl (fun acc s => keep s nd acc) x).chi2.length (ops.foldl (fun acc s => keep s nd acc) x) := by
+  have hw : WFInfo (ops.foldl (fun acc s => keep s nd acc) x) := by
+    induction ops generalizing x with
+    | nil => exact hwf
+    | cons s rest ih => exact ih (keep s nd x) (keep_wfInfo s nd x hwf)
+  obtain ⟨h1, h2, h3, h4, h5⟩ := hw
+  exact ⟨⟨h1, h2, h3, h4, h5⟩, h1, h2, rfl, h3, h4, h5⟩
+
+/-- **C05 (the selection depends only on chi², n_data and the selector).** Two results with the same
+    chi² column — a record and its copy, a record and what is read back from a fit file, or results
+    that differ in every other column — keep the same number of fits, and each has every array cut to
+    that number; flag arrays with the same count of 1/4 entries select alike. -/
+theorem C05_depends_only_on_chi2 (s : Sel K) (nd : Nat) (x y : FitRows K) (h : x.chi2 = y.chi2) :
+    nFits s nd x.chi2 = nFits s nd y.chi2 ∧ (keep s nd x).chi2 = (keep s nd y).chi2 ∧
+    CutTo (nFits s nd x.chi2) y (keep s nd y) ∧ (x = y → keep s nd x = keep s nd y) ∧
+    ∀ flags flags' : List Nat, nDataSrc flags = nDataSrc flags' → keepSrc s flags x = keepSrc s flags' x := by
+  refine ⟨by rw [h], by simp [keep, h], ?_, fun e => by rw [e], ?_⟩
+  · rw [h]; exact keep_cutTo s nd y
+  · intro f f' hf
+    simp [keepSrc, hf]
+
 /-! ### Non-vacuity: a ranked vector with a tie, `+inf` and NaN; `F` threshold between attained values -/
 
 def exSelC05 : Sel Rat := Sel.F (EF.fin (1/4))
@@ -240,5 +272,13 @@ example : nFits exSelC05 3 exInfoC05.chi2 = 1 ∧ nFits exSelC05 3 exInfoC05.chi
 example : ¬ (nFits (Sel.N 10) 3 exInfoC05.chi2 ≤ nFits (Sel.A : Sel Rat) 3 exInfoC05.chi2) ∧
     min (nFits (Sel.N 10) 3 exInfoC05.chi2) exInfoC05.chi2.length
       ≤ min (nFits (Sel.A : Sel Rat) 3 exInfoC05.chi2) exInfoC05.chi2.length := by decide +kernel
+
+/-- a three-step history on the example: ('N', 4), then ('F', 1/4), then ('A', ·) -/
+example : WFInfo exInfoC05 ∧ ([Sel.N 4, exSelC05, Sel.A].foldl (fun acc s => keep s 3 acc) exInfoC05).chi2.length = 1 := by
+  refine ⟨by simp [WFInfo, exInfoC05], ?_⟩
+  decide +kernel
+
+/-- a "copy" that shares only the chi² column -/
+example : exInfoC05.chi2 = ({ exInfoC05 with av := [], name := ["x"] } : FitRows Rat).chi2 := rfl
 
 end SF
